@@ -1,28 +1,9 @@
 /- C05 / C06 / C13: the shift loops, re-padding, equality, hashing, value(). -/
 import Schc.Proofs.BufIter
+import Schc.Proofs.BitsMore
 
 namespace Schc
 open Bits
-
-/-- the low `k` bits of an `n`-bit expansion -/
-theorem ofNat_low (n k x : Nat) (hk : k ≤ n) : Bits.ofNat k (x % 2 ^ k) = (Bits.ofNat n x).drop (n - k) := by
-  apply List.ext_getElem
-  · simp; omega
-  · intro i h1 h2
-    simp only [ofNat_length] at h1
-    simp only [Bits.ofNat, List.getElem_map, List.getElem_range, List.getElem_drop, Nat.testBit_mod_two_pow]
-    have : k - 1 - i < k := by omega
-    simp only [this, decide_true, Bool.true_and]
-    congr 1; omega
-
-/-- the high `n - k` bits of an `n`-bit expansion -/
-theorem ofNat_high (n k x : Nat) (hk : k ≤ n) : Bits.ofNat (n - k) (x / 2 ^ k) = (Bits.ofNat n x).take (n - k) := by
-  apply List.ext_getElem
-  · simp
-  · intro i h1 h2
-    simp only [ofNat_length] at h1
-    simp only [Bits.ofNat, List.getElem_map, List.getElem_range, List.getElem_take, Nat.testBit_div_two_pow]
-    congr 1; omega
 
 /-- one byte of the right-shift loop: low `sh` bits of the previous byte, then the high `8 - sh` bits of this one -/
 theorem shr_byte (prev cur sh : Nat) (hsh : sh ≤ 8) (hc : cur < 256) :
